@@ -75,6 +75,21 @@ impl<LF> JsonLdParser<LF> {
     where
         LF: LoaderFactory,
     {
+        // `ArcVoc::iri` re-parses these IRIs with `iref` (and unwraps), and `iref` does not accept
+        // everything that `sophia_iri` accepts (e.g. the upper-case `V` of IPvFuture):
+        // report them as errors rather than panicking later.
+        for iri in data
+            .url()
+            .into_iter()
+            .chain(self.options.inner().base.as_ref())
+        {
+            if let Err(error) = iref::Iri::new(iri.as_str()) {
+                return JsonLdQuadSource::from_err(crate::JsonLdError::UnsupportedBaseIri {
+                    iri: iri.as_str().to_string(),
+                    error,
+                });
+            }
+        }
         let gen_loc = Location::new(
             Iri::new_unchecked(Arc::from("x-bnode-gen://")),
             Span::default(),
